@@ -62,6 +62,7 @@ func spec(id string) (propSpec, bool) {
 		d.Fuzz = []fuzzSpec{{"FuzzReadOnly", 120}}
 	case "C14":
 		d.Level = "fault_enumeration"
+		d.HangIsViolation = true // Convert must return the writer's error; not returning at all is not returning it
 	case "C02", "C06", "C08", "C09", "C10", "C11", "C13", "C15", "C16", "C17", "C18", "C19", "C20":
 	default:
 		return d, false
